@@ -421,7 +421,7 @@ fn mutate_battery(cf: &mut CompoundFile<MonFile>, rng: &mut Rng, rep: &mut Repor
         let parent = storages.get(rng.usize_below(storages.len().max(1))).map(|p| p.to_path_buf()).unwrap_or_else(|| "/".into());
         let newp = parent.join(format!("n{}", rng.below(4)));
         let some_stream = streams.get(rng.usize_below(streams.len().max(1))).map(|p| p.to_path_buf());
-        let which = rng.below(12);
+        let which = rng.below(13);
         if std::env::var_os("CFBMON_TRACE").is_some() {
             eprintln!("  op kind {which}: newp={newp:?} some_stream={some_stream:?}");
         }
@@ -491,6 +491,38 @@ fn mutate_battery(cf: &mut CompoundFile<MonFile>, rng: &mut Rng, rep: &mut Repor
                     _ => cf.set_created_time(&p, std::time::UNIX_EPOCH),
                 };
                 note(rep, "metadata", r, log);
+            }
+            12 => {
+                // two handles on one stream, both used: appends, overwrites, resizes, flushes
+                if let Some(p) = &some_stream {
+                    let grow = rng.chance(1, 2);
+                    let r = (|| {
+                        let mut a = NoDropOnPanic::new(cf.open_stream(p)?);
+                        let mut b = NoDropOnPanic::new(cf.open_stream(p)?);
+                        if grow {
+                            b.seek(SeekFrom::End(0))?;
+                            b.write_all(&engine::payload(k, 100))?;
+                        } else {
+                            // (a damaged length field can claim terabytes; resizing to a third of
+                            // that is a legitimate request for terabytes, not what is probed here)
+                            let l = b.len().min(1 << 20);
+                            b.set_len(l / 3)?;
+                        }
+                        b.flush()?;
+                        a.seek(SeekFrom::Start(0))?;
+                        a.write_all(&engine::payload(k + 1, 20))?;
+                        a.flush()?;
+                        let l = a.len();
+                        let _ = a.seek(SeekFrom::Start(l));
+                        let _ = a.write_all(&[7u8; 10]);
+                        let _ = a.flush();
+                        let _ = b.flush();
+                        a.done();
+                        b.done();
+                        Ok(())
+                    })();
+                    note(rep, if grow { "two_handles(grow)" } else { "two_handles(shrink)" }, r, log);
+                }
             }
             10 => {
                 if let Some(p) = &some_stream {
